@@ -2,7 +2,7 @@
 From AF Require Import Lib.Bytes Lib.Path Lib.Ops Gen.Consts Model.MemFile Model.MemFs Model.WfOps Model.Union Model.Cow
   Model.Cache Proofs.MemFsBasics Proofs.MemFsPath Proofs.MemFsWF Proofs.MemFsStep Proofs.MemFsInv Proofs.MemFsRename
   Proofs.CacheProof Proofs.CacheReady Proofs.CacheInv Proofs.CacheFrames Proofs.CacheHandles Proofs.CacheInvOps Proofs.CacheCopy
-  Proofs.CacheInvCopy Proofs.MemFsRenameGen.
+  Proofs.CacheInvCopy Proofs.MemFsRenameGen Proofs.MemFsBelow Proofs.MemBelowRefused.
 Local Open Scope Z_scope.
 
 (* ---------- well-formedness of a call depends on the path map and the kinds of the nodes only ---------- *)
@@ -26,11 +26,24 @@ Proof.
   unfold prefixes_dirs. destruct K as (A & _). rewrite A. clear A. induction (mdata s) as [|kv l IH]; [reflexivity|].
   cbn [forallb]. now rewrite IH, ks_is_dir.
 Qed.
-Lemma ks_wf_op o : WfOps.wf_op s' o = WfOps.wf_op s o.
+Lemma ks_through k : through_file s' k = through_file s k.
 Proof.
-  destruct o; cbn [WfOps.wf_op]; rewrite ?(kind_same_kind s s' _ K), ?(kind_same_lookup s s' _ K), ?ks_is_dir, ?ks_nfp, ?ks_prefixes, ?ks_has_kids; reflexivity.
+  unfold through_file. destruct K as (A & _). rewrite A. clear A. induction (mdata s) as [|kv l IH]; [reflexivity|].
+  cbn [existsb]. now rewrite IH, ks_is_file.
 Qed.
+Lemma ks_wf_below o : wf_below s' o = wf_below s o.
+Proof. destruct o; cbn [wf_below]; rewrite ?(kind_same_kind s s' _ K), ?ks_through; reflexivity. Qed.
+Lemma ks_wf_op o : WfOps.wf_op_ord s' o = WfOps.wf_op_ord s o.
+Proof.
+  destruct o; cbn [WfOps.wf_op_ord]; rewrite ?(kind_same_kind s s' _ K), ?(kind_same_lookup s s' _ K), ?ks_is_dir, ?ks_nfp, ?ks_prefixes, ?ks_has_kids; reflexivity.
+Qed.
+Lemma ks_wf_op_full o : WfOps.wf_op s' o = WfOps.wf_op s o.
+Proof. unfold WfOps.wf_op. now rewrite ks_wf_op, ks_wf_below. Qed.
 End KindSame.
+
+(* a call refused because its name passes through a regular file: only the clock moves *)
+Lemma below_step_bump s o : WF s -> wf_below s o = true -> m_step s o = (bump s, RErr (EW KENOTDIR)).
+Proof. intros W H. exact (below_step_ticked s o W H). Qed.
 
 (* ---------- the call on the base, then on the layer ---------- *)
 (* [stop_of r]: cache_both returns here (an error or a panic of the base) *)
@@ -61,17 +74,17 @@ Proof.
 Qed.
 
 (* Remove: on both sides; on the base alone when the layer does not hold the name *)
-Lemma wf_remove_parts sb p : WfOps.wf_op sb (Remove p) = true -> wf_name p = true /\ normalize_path p <> s_slash.
+Lemma wf_remove_parts sb p : WfOps.wf_op_ord sb (Remove p) = true -> wf_name p = true /\ normalize_path p <> s_slash.
 Proof.
-  cbn [WfOps.wf_op]. intros H. apply andb_true_iff in H as [H _]. apply andb_true_iff in H as [H1 H2]. split; [exact H1|].
+  cbn [WfOps.wf_op_ord]. intros H. apply andb_true_iff in H as [H _]. apply andb_true_iff in H as [H1 H2]. split; [exact H1|].
   apply negb_true_iff, beqb_neq in H2. exact H2.
 Qed.
 
-Lemma remove_layer_wf sb sl phi p : TreeShape sb sl phi -> WfOps.wf_op sb (Remove p) = true -> WF (fst (m_step sl (Remove p))).
+Lemma remove_layer_wf sb sl phi p : TreeShape sb sl phi -> WfOps.wf_op_ord sb (Remove p) = true -> WF (fst (m_step sl (Remove p))).
 Proof.
   intros T Hwf. destruct (wf_remove_parts sb p Hwf) as [Hw Hr]. pose proof (ts_wfl _ _ _ T) as Wl.
   destruct (lookup sl (normalize_path p)) as [rl|] eqn:Hl.
-  - apply WF_step; [exact Wl|]. cbn [WfOps.wf_op] in *. apply andb_true_iff in Hwf as [H0 Hk]. rewrite H0. cbn [andb].
+  - apply WF_step_ord; [exact Wl|]. cbn [WfOps.wf_op_ord] in *. apply andb_true_iff in Hwf as [H0 Hk]. rewrite H0. cbn [andb].
     destruct (kind_at sl (normalize_path p)) as [b|] eqn:Ek.
     + rewrite (layer_kind_base sb sl phi T _ b Ek) in Hk. destruct b; [|reflexivity].
       apply negb_true_iff. apply negb_true_iff in Hk. destruct (has_kids sl (normalize_path p)) eqn:E; [|reflexivity].
@@ -81,13 +94,13 @@ Proof.
 Qed.
 
 Lemma cinv_remove_both sb sl tbl phi p :
-  CInvP sb sl tbl phi -> WfOps.wf_op sb (Remove p) = true ->
+  CInvP sb sl tbl phi -> WfOps.wf_op_ord sb (Remove p) = true ->
   exists phi', CInvP (fst (m_step sb (Remove p))) (fst (m_step sl (Remove p))) tbl phi'.
 Proof.
   intros [T B] Hwf. destruct (wf_remove_parts sb p Hwf) as [Hw Hr].
   pose proof (ti_wfb _ _ _ T) as Wb. pose proof (ti_wfl _ _ _ T) as Wl.
   destruct (remove_step sb p Wb Hw Hr) as (Fb & Db & Hhb & _). destruct (remove_step sl p Wl Hw Hr) as (Fl & Dl & Hhl & _).
-  destruct (cinv_frames sb sl tbl phi _ _ _ (conj T B) (WF_step sb _ Wb Hwf) (remove_layer_wf sb sl phi p (TreeInv_shape _ _ _ T) Hwf) Fb Fl Db Dl) as (phi' & C & _).
+  destruct (cinv_frames sb sl tbl phi _ _ _ (conj T B) (WF_step_ord sb _ Wb Hwf) (remove_layer_wf sb sl phi p (TreeInv_shape _ _ _ T) Hwf) Fb Fl Db Dl) as (phi' & C & _).
   - intros i h H. now rewrite Hhb.
   - intros i h H. now rewrite Hhl.
   - intros k' rl Hk Hf. exfalso.
@@ -96,7 +109,7 @@ Proof.
 Qed.
 
 Lemma cinv_remove_base_only sb sl tbl phi p :
-  CInvP sb sl tbl phi -> WfOps.wf_op sb (Remove p) = true -> lookup sl (normalize_path p) = None ->
+  CInvP sb sl tbl phi -> WfOps.wf_op_ord sb (Remove p) = true -> lookup sl (normalize_path p) = None ->
   exists phi', CInvP (fst (m_step sb (Remove p))) sl tbl phi'.
 Proof.
   intros [T B] Hwf Hl. destruct (wf_remove_parts sb p Hwf) as [Hw Hr].
@@ -105,7 +118,7 @@ Proof.
   assert (Fl : Frame (rho_del (normalize_path p)) sl sl).
   { eapply frame_ext_lookup; [|apply frame_refl]. intros k. unfold rho_del. destruct (beqb (normalize_path p) k) eqn:E; [|reflexivity].
     apply beqb_eq in E. subst k. cbn [olookup]. exact Hl. }
-  destruct (cinv_frames sb sl tbl phi _ sl _ (conj T B) (WF_step sb _ Wb Hwf) Wl Fb Fl Db) as (phi' & C & _).
+  destruct (cinv_frames sb sl tbl phi _ sl _ (conj T B) (WF_step_ord sb _ Wb Hwf) Wl Fb Fl Db) as (phi' & C & _).
   - now apply dkeep_view.
   - intros i h H. now rewrite Hhb.
   - apply hkeep_refl.
@@ -114,24 +127,24 @@ Proof.
 Qed.
 
 (* RemoveAll on both sides *)
-Lemma wf_removeall_parts sb p : WfOps.wf_op sb (RemoveAll p) = true ->
+Lemma wf_removeall_parts sb p : WfOps.wf_op_ord sb (RemoveAll p) = true ->
   wf_name p = true /\ normalize_path p <> s_slash /\ no_file_prefix sb (normalize_path p) = true.
 Proof.
-  cbn [WfOps.wf_op]. intros H. apply andb_true_iff in H as [H H3]. apply andb_true_iff in H as [H1 H2]. split; [exact H1|].
+  cbn [WfOps.wf_op_ord]. intros H. apply andb_true_iff in H as [H H3]. apply andb_true_iff in H as [H1 H2]. split; [exact H1|].
   apply negb_true_iff, beqb_neq in H2. now split.
 Qed.
 
 Lemma cinv_removeall_both sb sl tbl phi p :
-  CInvP sb sl tbl phi -> WfOps.wf_op sb (RemoveAll p) = true ->
+  CInvP sb sl tbl phi -> WfOps.wf_op_ord sb (RemoveAll p) = true ->
   exists phi', CInvP (fst (m_step sb (RemoveAll p))) (fst (m_step sl (RemoveAll p))) tbl phi'.
 Proof.
   intros [T B] Hwf. destruct (wf_removeall_parts sb p Hwf) as (Hw & Hr & Hn).
   pose proof (ti_wfb _ _ _ T) as Wb. pose proof (ti_wfl _ _ _ T) as Wl.
   destruct (removeall_step sb p Wb Hw Hr) as (Fb & Db & Hhb & _). destruct (removeall_step sl p Wl Hw Hr) as (Fl & Dl & Hhl & _).
-  assert (Hwfl : WfOps.wf_op sl (RemoveAll p) = true).
-  { cbn [WfOps.wf_op]. rewrite Hw. assert (E : beqb (normalize_path p) s_slash = false) by now apply beqb_neq. rewrite E. cbn [andb negb].
+  assert (Hwfl : WfOps.wf_op_ord sl (RemoveAll p) = true).
+  { cbn [WfOps.wf_op_ord]. rewrite Hw. assert (E : beqb (normalize_path p) s_slash = false) by now apply beqb_neq. rewrite E. cbn [andb negb].
     exact (nfp_base_layer sb sl phi (TreeInv_shape _ _ _ T) _ Hn). }
-  destruct (cinv_frames sb sl tbl phi _ _ _ (conj T B) (WF_step sb _ Wb Hwf) (WF_step sl _ Wl Hwfl) Fb Fl Db Dl) as (phi' & C & _).
+  destruct (cinv_frames sb sl tbl phi _ _ _ (conj T B) (WF_step_ord sb _ Wb Hwf) (WF_step_ord sl _ Wl Hwfl) Fb Fl Db Dl) as (phi' & C & _).
   - intros i h H. now rewrite Hhb.
   - intros i h H. now rewrite Hhl.
   - intros k' rl Hk Hf. exfalso.
@@ -140,15 +153,15 @@ Proof.
 Qed.
 
 (* Rename on both sides (the layer holds the source whenever the base does: CacheOnReadFs copies it first) *)
-Lemma wf_rename_parts sb p q : WfOps.wf_op sb (Rename p q) = true ->
+Lemma wf_rename_parts sb p q : WfOps.wf_op_ord sb (Rename p q) = true ->
   wf_name p = true /\ wf_name q = true /\ normalize_path p <> s_slash.
 Proof.
-  cbn [WfOps.wf_op]. intros H. apply andb_true_iff in H as [H _]. apply andb_true_iff in H as [H H3]. apply andb_true_iff in H as [H1 H2].
+  cbn [WfOps.wf_op_ord]. intros H. apply andb_true_iff in H as [H _]. apply andb_true_iff in H as [H H3]. apply andb_true_iff in H as [H1 H2].
   apply negb_true_iff, beqb_neq in H3. auto.
 Qed.
 
 Lemma cinv_rename_both sb sl tbl phi p q :
-  CInvP sb sl tbl phi -> WfOps.wf_op sb (Rename p q) = true ->
+  CInvP sb sl tbl phi -> WfOps.wf_op_ord sb (Rename p q) = true ->
   (lookup sb (normalize_path p) <> None -> lookup sl (normalize_path p) <> None) ->
   exists phi', CInvP (fst (m_step sb (Rename p q))) (fst (m_step sl (Rename p q))) tbl phi'.
 Proof.
@@ -168,7 +181,7 @@ Proof.
   destruct (rename_pre_facts sb p q fb Wb Hwf Hlb Eon) as (Ho & Hn & _ & Hnr & Hb1 & Hb2 & Hfreeb). fold old new in Ho, Hn, Hnr, Hb1, Hb2, Hfreeb.
   (* every proper ancestor of the target is a directory of the base; no regular file on the way *)
   assert (Hanc : forall a, canon a -> below a new = true -> exists ra na, lookup sb a = Some ra /\ get_node sb ra = Some na /\ ndir na = true).
-  { intros a Ha Hba. pose proof Hwf as Hwf'. cbn [WfOps.wf_op] in Hwf'. fold old new in Hwf'.
+  { intros a Ha Hba. pose proof Hwf as Hwf'. cbn [WfOps.wf_op_ord] in Hwf'. fold old new in Hwf'.
     apply andb_true_iff in Hwf' as [_ Hk]. destruct (GWF_lookup_node _ _ _ _ _ _ Wb Hlb) as (nfb & Hnfb).
     assert (Eko : kind_at sb old = Some (ndir nfb)) by (unfold kind_at; now rewrite Hlb, Hnfb). rewrite Eko in Hk.
     assert (Ebn : beqb old new = false) by now apply beqb_neq. rewrite Ebn, Hb1 in Hk. cbn [orb negb andb] in Hk.
@@ -210,9 +223,9 @@ Proof.
 Qed.
 
 (* ---------- the six mutators that go through cache_both ---------- *)
-Lemma both_op_wf_name sb o : both_op o = true -> WfOps.wf_op sb o = true -> wf_name (op_path o) = true.
+Lemma both_op_wf_name sb o : both_op o = true -> WfOps.wf_op_ord sb o = true -> wf_name (op_path o) = true.
 Proof.
-  destruct o; try discriminate; cbn [WfOps.wf_op op_path]; intros _ H; repeat (apply andb_true_iff in H as [H _]); exact H.
+  destruct o; try discriminate; cbn [WfOps.wf_op_ord op_path]; intros _ H; repeat (apply andb_true_iff in H as [H _]); exact H.
 Qed.
 
 Lemma both_op_cases o : both_op o = true ->
@@ -221,7 +234,7 @@ Proof. destruct o; try discriminate; intros _; eauto 6. Qed.
 
 (* the base refuses: nothing has changed *)
 Lemma mut_base_fail sb sl tbl phi o :
-  CInvP sb sl tbl phi -> both_op o = true -> WfOps.wf_op sb o = true -> stop_of (snd (m_step sb o)) <> None ->
+  CInvP sb sl tbl phi -> both_op o = true -> WfOps.wf_op_ord sb o = true -> stop_of (snd (m_step sb o)) <> None ->
   exists phi', CInvP (fst (m_step sb o)) sl tbl phi'.
 Proof.
   intros C Hb Hwf Hstop. pose proof (ti_wfb _ _ _ (proj1 C)) as Wb.
@@ -242,7 +255,7 @@ Qed.
 
 (* the base accepts: the same call on the layer *)
 Lemma mut_both sb sl tbl phi o :
-  CInvP sb sl tbl phi -> both_op o = true -> WfOps.wf_op sb o = true ->
+  CInvP sb sl tbl phi -> both_op o = true -> WfOps.wf_op_ord sb o = true ->
   (copies_first o = true -> lookup sb (normalize_path (op_path o)) <> None -> lookup sl (normalize_path (op_path o)) <> None) ->
   exists phi', CInvP (fst (m_step sb o)) (fst (m_step sl o)) tbl phi'.
 Proof.
@@ -256,14 +269,21 @@ Qed.
 Lemma same3_kind_same s s' : same3 s s' -> kind_same s s'.
 Proof. intros H. apply kind_same_of_same2. now apply same3_2. Qed.
 
+Lemma both_op_wf_name_full sb o : both_op o = true -> WfOps.wf_op sb o = true -> wf_name (op_path o) = true.
+Proof.
+  intros Hb H. apply wf_op_cases in H as [H|H]; [exact (both_op_wf_name sb o Hb H)|].
+  destruct o; try discriminate Hb; cbn [wf_below] in H; try discriminate H. cbn [op_path].
+  repeat (apply andb_true_iff in H as [H _]). exact H.
+Qed.
+
 Theorem cinv_cache_both dur now sb sl tbl o :
   CInv (sb, sl, tbl) -> both_op o = true -> WfOps.wf_op sb o = true ->
   CInv (fst (cache_both m_step m_step dur now sb sl tbl (op_path o) o (copies_first o) (base_only_switch o))).
 Proof.
-  intros (phi & C) Hb Hwf. pose proof (both_op_wf_name sb o Hb Hwf) as Hw.
+  intros (phi & C) Hb Hwf. pose proof (both_op_wf_name_full sb o Hb Hwf) as Hw.
   destruct (status_mem dur now sb sl phi (op_path o) (TreeInv_shape _ _ _ (proj1 C))) as (sb1 & sl1 & cs & fi & Est & Sb & Sl & Hcs).
   pose proof (CInvP_view sb sl tbl phi sb1 sl1 Sb Sl C) as C1.
-  assert (Hwf1 : WfOps.wf_op sb1 o = true) by (rewrite (ks_wf_op sb sb1 (same3_kind_same _ _ Sb)); exact Hwf).
+  assert (Hwf1 : WfOps.wf_op sb1 o = true) by (rewrite (ks_wf_op_full sb sb1 (same3_kind_same _ _ Sb)); exact Hwf).
   unfold cache_both. rewrite Est.
   (* the call on the base state [x] paired with the layer state [y], then on the layer *)
   assert (Hrun : forall x y phi0, CInvP x y tbl phi0 -> WfOps.wf_op x o = true ->
@@ -272,7 +292,10 @@ Proof.
                        | (sb2, sl2, Some r) => cret sb2 sl2 tbl r
                        | (sb2, sl2, None) => let '(sl3, r) := m_step sl2 o in cret sb2 sl3 tbl r
                        end))).
-  { intros x y phi0 C0 Hwf0 Hhas. destruct (m_step x o) as [sb2 r] eqn:Eb.
+  { intros x y phi0 C0 Hwf0 Hhas. apply wf_op_cases in Hwf0 as [Hwf0|Hbel].
+    2:{ rewrite (below_step_bump x o (ti_wfb _ _ _ (proj1 C0)) Hbel). cbn [stop_of res_err fst cret].
+        exists phi0. apply (CInvP_view x y tbl phi0); [apply same3_bump | apply same3_refl | exact C0]. }
+    destruct (m_step x o) as [sb2 r] eqn:Eb.
     destruct (stop_of r) as [rr|] eqn:Es.
     - cbn [fst cret]. destruct (mut_base_fail x y tbl phi0 o C0 Hb Hwf0) as (phi' & C'); [rewrite Eb; cbn [snd]; congruence|].
       rewrite Eb in C'. now exists phi'.
@@ -283,13 +306,14 @@ Proof.
     destruct (base_only_switch o) eqn:Esw.
     + (* Remove on a miss: the base only *)
       assert (Ho : exists p, o = Remove p) by (destruct o; try discriminate Esw; eauto). destruct Ho as (p & ->). cbn [op_path] in *.
-      destruct (cinv_remove_base_only sb1 sl1 tbl phi p C1 Hwf1) as (phi' & C'); [rewrite (same3_lookup _ _ _ Sl); exact Hcs|].
+      assert (Hwfo : WfOps.wf_op_ord sb1 (Remove p) = true) by (apply wf_op_cases in Hwf1 as [H|H]; [exact H | discriminate H]).
+      destruct (cinv_remove_base_only sb1 sl1 tbl phi p C1 Hwfo) as (phi' & C'); [rewrite (same3_lookup _ _ _ Sl); exact Hcs|].
       destruct (m_step sb1 (Remove p)) as [sb2 r]. cbn [fst cret] in *. now exists phi'.
     + destruct (copies_first o) eqn:Ecf.
       * destruct (cinv_cache_copy sb1 sl1 tbl phi (op_path o) C1 Hw) as (sb2 & sl2 & oe & phi2 & Ecp & C2 & _ & Hks & Hok & _).
         rewrite Ecp. destruct oe as [ce|]; [cbn [fst cret]; now exists phi2|].
         destruct (Hok eq_refl) as [_ Hl2].
-        apply (Hrun sb2 sl2 phi2 C2); [rewrite (ks_wf_op sb1 sb2 Hks); exact Hwf1 | intros _ _; exact Hl2].
+        apply (Hrun sb2 sl2 phi2 C2); [rewrite (ks_wf_op_full sb1 sb2 Hks); exact Hwf1 | intros _ _; exact Hl2].
       * apply (Hrun sb1 sl1 phi C1 Hwf1). intros H; discriminate H.
   - (* stale *)
     destruct Hcs as (rl & nl & f & Hl & _).
@@ -303,7 +327,7 @@ Proof.
                        | (sb3, sl3, Some r) => cret sb3 sl3 tbl r
                        | (sb3, sl3, None) => let '(sl4, r) := m_step sl3 o in cret sb3 sl4 tbl r
                        end))).
-        { apply (Hrun sb2 sl2 phi2 C2); [rewrite (ks_wf_op sb1 sb2 Hks); exact Hwf1 | intros _ _; exact Hl2]. }
+        { apply (Hrun sb2 sl2 phi2 C2); [rewrite (ks_wf_op_full sb1 sb2 Hks); exact Hwf1 | intros _ _; exact Hl2]. }
         destruct (base_only_switch o); exact Hgo.
     + assert (Hgo : CInv (fst (match (let '(sb3, r) := m_step sb1 o in (sb3, sl1, stop_of r)) with
                        | (sb3, sl3, Some r) => cret sb3 sl3 tbl r
@@ -387,10 +411,10 @@ Proof.
 Qed.
 
 Theorem cinv_mkdirall dur now sb sl tbl p perm :
-  CInv (sb, sl, tbl) -> WfOps.wf_op sb (MkdirAll p perm) = true ->
+  CInv (sb, sl, tbl) -> WfOps.wf_op_ord sb (MkdirAll p perm) = true ->
   CInv (fst (cache_step m_step m_step dur now (sb, sl, tbl) (MkdirAll p perm))).
 Proof.
-  intros (phi & C) Hwf. cbn [cache_step]. cbn [WfOps.wf_op] in Hwf. apply andb_true_iff in Hwf as [Hw Hpre].
+  intros (phi & C) Hwf. cbn [cache_step]. cbn [WfOps.wf_op_ord] in Hwf. apply andb_true_iff in Hwf as [Hw Hpre].
   destruct (cinv_mkdirall_both sb sl tbl phi p perm perm C Hw Hpre) as (phi' & C').
   destruct (mkdirall_step sb p perm (ti_wfb _ _ _ (proj1 C)) Hw Hpre) as (Hres & _).
   destruct (m_step sb (MkdirAll p perm)) as [sb1 r]. cbn [fst snd] in *. subst r.
@@ -398,12 +422,12 @@ Proof.
 Qed.
 
 Theorem cinv_mkdir dur now sb sl tbl p perm :
-  CInv (sb, sl, tbl) -> WfOps.wf_op sb (Mkdir p perm) = true ->
+  CInv (sb, sl, tbl) -> WfOps.wf_op_ord sb (Mkdir p perm) = true ->
   CInv (fst (cache_step m_step m_step dur now (sb, sl, tbl) (Mkdir p perm))).
 Proof.
   intros (phi & C) Hwf. cbn [cache_step]. pose proof (ti_wfb _ _ _ (proj1 C)) as Wb.
   destruct (mkdir_step sb p perm Wb Hwf) as [Hex Hmiss].
-  assert (Hw : wf_name p = true) by (cbn [WfOps.wf_op] in Hwf; now apply andb_true_iff in Hwf as [Hw _]).
+  assert (Hw : wf_name p = true) by (cbn [WfOps.wf_op_ord] in Hwf; now apply andb_true_iff in Hwf as [Hw _]).
   destruct (lookup sb (normalize_path p)) as [f|] eqn:Hl.
   - rewrite Hex by congruence. cbn [fst cret]. exists phi. apply (CInvP_view sb sl tbl phi); [apply same3_bump | apply same3_refl | exact C].
   - destruct (Hmiss eq_refl) as (Hres & Hfst & Hpre).
@@ -453,10 +477,10 @@ Proof.
 Qed.
 
 (* ---------- Create ---------- *)
-Lemma wf_create_parts sb p : WF sb -> WfOps.wf_op sb (Create p) = true ->
+Lemma wf_create_parts sb p : WF sb -> WfOps.wf_op_ord sb (Create p) = true ->
   wf_name p = true /\ normalize_path p <> s_slash /\ no_file_prefix sb (normalize_path p) = true /\ kind_at sb (normalize_path p) <> Some true.
 Proof.
-  intros W H. cbn [WfOps.wf_op] in H. apply andb_true_iff in H as [Hw Hk]. set (key := normalize_path p) in *.
+  intros W H. cbn [WfOps.wf_op_ord] in H. apply andb_true_iff in H as [Hw Hk]. set (key := normalize_path p) in *.
   assert (Hc : canon key) by (apply canon_normalize; exact Hw).
   assert (Hr : key <> s_slash).
   { intros E. rewrite E in Hk. destruct (g_root _ _ _ _ W) as (r & n & Hl & Hn & _ & Hd). unfold kind_at in Hk. rewrite Hl, Hn, Hd in Hk. discriminate. }
@@ -466,7 +490,7 @@ Proof.
 Qed.
 
 Theorem cinv_create dur now sb sl tbl p :
-  CInv (sb, sl, tbl) -> WfOps.wf_op sb (Create p) = true ->
+  CInv (sb, sl, tbl) -> WfOps.wf_op_ord sb (Create p) = true ->
   CInv (fst (cache_step m_step m_step dur now (sb, sl, tbl) (Create p))).
 Proof.
   intros (phi & [T B]) Hwf. cbn [cache_step]. set (key := normalize_path p) in *.
@@ -579,11 +603,11 @@ Qed.
 
 (* ---------- Open ---------- *)
 Theorem cinv_open dur now sb sl tbl p :
-  CInv (sb, sl, tbl) -> WfOps.wf_op sb (Open p) = true ->
+  CInv (sb, sl, tbl) -> WfOps.wf_op_ord sb (Open p) = true ->
   CInv (fst (cache_step m_step m_step dur now (sb, sl, tbl) (Open p))).
 Proof.
   intros (phi & C) Hwf. cbn [cache_step].
-  assert (Hw : wf_name p = true) by (cbn [WfOps.wf_op] in Hwf; now apply andb_true_iff in Hwf as [Hw _]).
+  assert (Hw : wf_name p = true) by (cbn [WfOps.wf_op_ord] in Hwf; now apply andb_true_iff in Hwf as [Hw _]).
   destruct (status_mem dur now sb sl phi p (TreeInv_shape _ _ _ (proj1 C))) as (sb1 & sl1 & cs & fi & Est & Sb & Sl & Hcs).
   rewrite Est. pose proof (CInvP_view sb sl tbl phi sb1 sl1 Sb Sl C) as C1.
   (* copy, then the layer's Open *)
@@ -745,13 +769,13 @@ Qed.
 
 (* ---------- copyFileToLayer: the base is opened with the caller's flags (it may create or truncate the file) ---------- *)
 Lemma cinv_copy_with sb sl tbl phi p flag perm :
-  CInvP sb sl tbl phi -> WfOps.wf_op sb (OpenFile p flag perm) = true -> is_dir_at sb (normalize_path p) = false ->
+  CInvP sb sl tbl phi -> WfOps.wf_op_ord sb (OpenFile p flag perm) = true -> is_dir_at sb (normalize_path p) = false ->
   exists sb2 sl2 oe phi', copy_to_layer_with m_step m_step sb sl p (OpenFile p flag perm) = (sb2, sl2, oe) /\
     CInvP sb2 sl2 tbl phi' /\ (oe = None -> is_file_at sl2 (normalize_path p) = true).
 Proof.
   intros [T B] Hwf Hnd. set (key := normalize_path p) in *.
   pose proof (ti_wfb _ _ _ T) as Wb. pose proof (ti_wfl _ _ _ T) as Wl. pose proof (TreeInv_shape _ _ _ T) as TS.
-  pose proof Hwf as Hwf0. cbn [WfOps.wf_op] in Hwf0. fold key in Hwf0. apply andb_true_iff in Hwf0 as [Hw Hk]. apply andb_true_iff in Hw as [Hw Hfo].
+  pose proof Hwf as Hwf0. cbn [WfOps.wf_op_ord] in Hwf0. fold key in Hwf0. apply andb_true_iff in Hwf0 as [Hw Hk]. apply andb_true_iff in Hw as [Hw Hfo].
   unfold copy_to_layer_with.
   (* the copy once the base file is open through a fresh handle *)
   assert (Hgo : forall sb1 fb nb1 bh,
@@ -798,49 +822,139 @@ Proof.
 Qed.
 
 (* ---------- OpenFile ---------- *)
-Definition hit_b (c : cache_state) : bool := match c with CHit => true | _ => false end.
-(* the one call outside the class: OpenFile of a DIRECTORY of the base that is not served as a hit —
-   CacheOnReadFs.OpenFile then copies the directory like a file (copyFileToLayer) and fails with EIO *)
-Definition openfile_dir_ok (dur now : Z) (sb sl : mst) (p : str) : bool :=
-  negb (is_dir_at sb (normalize_path p)) || hit_b (cs_state (cache_status m_step m_step dur now sb sl p)).
-
 Lemma copyfiletolayer_clears_append_is_1 : copyfiletolayer_clears_append = 1. Proof. reflexivity. Qed.
 Lemma cache_openfile_clears_excl_is_1 : cache_openfile_clears_excl = 1. Proof. reflexivity. Qed.
+(* CacheOnReadFs.OpenFile makes a directory of the base in the layer instead of copying it like a file.
+   Compiles iff Gen/Consts.v (read from cacheOnReadFs.go) says so. *)
+Lemma cache_openfile_dir_mkdir_fact : cache_openfile_dir_mkdir = 1. Proof. reflexivity. Qed.
+
+(* a directory of the base made in the layer with MkdirAll (CacheOnReadFs.copyToLayer, CacheOnReadFs.OpenFile) *)
+Lemma cinv_dir_into_layer sb sl tbl phi p pm fb nb :
+  CInvP sb sl tbl phi -> wf_name p = true ->
+  lookup sb (normalize_path p) = Some fb -> get_node sb fb = Some nb -> ndir nb = true ->
+  exists sl' phi', m_step sl (MkdirAll p pm) = (sl', ROk) /\ CInvP sb sl' tbl phi'.
+Proof.
+  intros [T B] Hw Hlb Hnb Hnd. set (key := normalize_path p) in *.
+  pose proof (ti_wfb _ _ _ T) as Wb. pose proof (ti_wfl _ _ _ T) as Wl.
+  assert (Hc : canon key) by (apply canon_normalize; exact Hw).
+  assert (Hpre : prefixes_dirs sl key = true).
+  { apply (prefixes_base_layer sb sl phi (TreeInv_shape _ _ _ T)). apply (dir_prefixes_dirs sb key Wb Hc).
+    unfold is_dir_at, kind_at. now rewrite Hlb, Hnb, Hnd. }
+  destruct (mkdirall_step sl p pm Wl Hw Hpre) as (Hres & Wl' & Fl & Dl & Hhl & Hdl & Hch). fold key in Hdl, Hch.
+  destruct (m_step sl (MkdirAll p pm)) as [sl' r]. cbn [fst snd] in *. subst r.
+  destruct (cinv_frames sb sl tbl phi sb sl' Some (conj T B) Wb Wl' (frame_refl sb) Fl) as (phi' & C' & _).
+  { now apply dkeep_view. } { exact Dl. } { apply hkeep_refl. } { intros i h H. now rewrite Hhl. }
+  { intros k' rl Hk Hf. destruct (Hch k' rl Hk Hf) as (Hwhere & n & Hn & Hdn & Hen).
+    assert (Hbk : exists ra na, lookup sb k' = Some ra /\ get_node sb ra = Some na /\ ndir na = true).
+    { destruct Hwhere as [->|Hbel]; [now exists fb, nb|]. exact (anc_live sb key fb k' Wb Hlb (g_canon _ _ _ _ Wl' k' rl Hk) Hbel). }
+    destruct Hbk as (ra & na & Hla & Hna & Hda). exists ra, n, na. repeat split; auto; try congruence.
+    now rewrite (ti_dirs _ _ _ T k' ra na Hla Hna Hda). }
+  now exists sl', phi'.
+Qed.
 
 Theorem cinv_openfile dur now sb sl tbl p flag perm :
-  CInv (sb, sl, tbl) -> WfOps.wf_op sb (OpenFile p flag perm) = true -> openfile_dir_ok dur now sb sl p = true ->
+  CInv (sb, sl, tbl) -> WfOps.wf_op_ord sb (OpenFile p flag perm) = true ->
   CInv (fst (cache_step m_step m_step dur now (sb, sl, tbl) (OpenFile p flag perm))).
 Proof.
-  intros (phi & C) Hwf Hok. cbn [cache_step]. set (key := normalize_path p) in *.
-  pose proof Hwf as Hwf0. cbn [WfOps.wf_op] in Hwf0. fold key in Hwf0. apply andb_true_iff in Hwf0 as [Hw Hk]. apply andb_true_iff in Hw as [Hw Hfo].
-  unfold openfile_dir_ok in Hok. fold key in Hok.
+  intros (phi & C) Hwf. cbn [cache_step]. set (key := normalize_path p) in *.
+  pose proof Hwf as Hwf0. cbn [WfOps.wf_op_ord] in Hwf0. fold key in Hwf0. apply andb_true_iff in Hwf0 as [Hw Hk]. apply andb_true_iff in Hw as [Hw Hfo].
   destruct (status_mem dur now sb sl phi p (TreeInv_shape _ _ _ (proj1 C))) as (sb1 & sl1 & cs & fi & Est & Sb & Sl & Hcs).
-  rewrite Est in *. cbn [cs_state] in Hok. pose proof (CInvP_view sb sl tbl phi sb1 sl1 Sb Sl C) as C1.
+  rewrite Est. pose proof (CInvP_view sb sl tbl phi sb1 sl1 Sb Sl C) as C1.
   pose proof (same3_kind_same _ _ Sb) as Kb.
-  rewrite copyfiletolayer_clears_append_is_1, cache_openfile_clears_excl_is_1. cbn [Z.eqb Pos.eqb].
-  (* miss / stale: the copy, then the opening with O_EXCL cleared *)
-  assert (Hcopy : is_dir_at sb key = false ->
-            CInv (fst (match copy_to_layer_with m_step m_step sb1 sl1 p (OpenFile p (Z.land flag (Z.lnot o_append)) perm) with
-                       | (sb2, sl2, Some ce) => cret sb2 sl2 tbl (RErr ce)
-                       | (sb2, sl2, None) => open_tail sb2 sl2 tbl p (Z.land flag (Z.lnot o_excl)) perm
-                       end))).
-  { intros Hnd. rewrite (flag_ok_no_append flag Hfo).
-    destruct (cinv_copy_with sb1 sl1 tbl phi p flag perm C1) as (sb2 & sl2 & oe & phi2 & Ecp & C2 & Hfile).
-    { rewrite (ks_wf_op sb sb1 Kb). exact Hwf. } { fold key. rewrite (ks_is_dir sb sb1 Kb). exact Hnd. }
-    rewrite Ecp. destruct oe as [ce|]; [cbn [fst cret]; now exists phi2|].
-    apply (cinv_open_tail sb2 sl2 tbl phi2 p _ perm C2 (flag_ok_clear_excl flag Hfo)). intros _. exact (Hfile eq_refl). }
-  destruct cs; cbn [hit_b] in Hok; rewrite ?orb_false_r in Hok.
-  - apply negb_true_iff in Hok. exact (Hcopy Hok).
-  - apply negb_true_iff in Hok. exact (Hcopy Hok).
+  rewrite copyfiletolayer_clears_append_is_1, cache_openfile_clears_excl_is_1, cache_openfile_dir_mkdir_fact. cbn [Z.eqb Pos.eqb].
+  (* a directory of the base: no access mode, no O_CREATE, no O_TRUNC in a well-formed flag word *)
+  assert (Hdirmask : kind_at sb key = Some true -> Z.land flag cache_mask = 0).
+  { intros Ekb. rewrite Ekb in Hk. apply andb_true_iff in Hk as [Ha Hc]. apply Z.eqb_eq in Ha. apply negb_true_iff in Hc.
+    rewrite (cache_mask_flag flag Hfo), Ha, (flag_has_zero flag o_create ltac:(discriminate) Hc), (flag_ok_trunc_access flag Hfo Ha). reflexivity. }
+  (* miss / stale: Stat of the base; a directory is made in the layer, anything else goes through copyFileToLayer;
+     then the opening with O_EXCL cleared *)
+  assert (Hcopy : CInv (fst (match (match m_step sb1 (Stat p) with
+                                    | (sb1', RInfo bfi) =>
+                                      if fi_dir bfi then
+                                        match m_step sl1 (MkdirAll p (Z.land (fi_mode bfi) 511)) with
+                                        | (sl2, ROk) => (sb1', sl2, None)
+                                        | (sl2, r) => (sb1', sl2, Some (err_of r))
+                                        end
+                                      else copy_to_layer_with m_step m_step sb1' sl1 p (OpenFile p (Z.land flag (Z.lnot o_append)) perm)
+                                    | (sb1', _) => copy_to_layer_with m_step m_step sb1' sl1 p (OpenFile p (Z.land flag (Z.lnot o_append)) perm)
+                                    end) with
+                             | (sb2, sl2, Some ce) => cret sb2 sl2 tbl (RErr ce)
+                             | (sb2, sl2, None) => open_tail sb2 sl2 tbl p (Z.land flag (Z.lnot o_excl)) perm
+                             end))).
+  { rewrite (step_stat_full sb1 p (ti_wfb _ _ _ (proj1 C1))). fold key. rewrite (flag_ok_no_append flag Hfo).
+    assert (C1' : CInvP (bump sb1) sl1 tbl phi) by (apply (CInvP_view sb1 sl1 tbl phi); [apply same3_bump | apply same3_refl | exact C1]).
+    assert (Kb' : kind_same sb (bump sb1)) by (eapply kind_same_trans; [exact Kb | apply same3_kind_same, same3_bump]).
+    assert (Hnotdir : is_dir_at sb1 key = false ->
+              CInv (fst (match copy_to_layer_with m_step m_step (bump sb1) sl1 p (OpenFile p flag perm) with
+                         | (sb2, sl2, Some ce) => cret sb2 sl2 tbl (RErr ce)
+                         | (sb2, sl2, None) => open_tail sb2 sl2 tbl p (Z.land flag (Z.lnot o_excl)) perm
+                         end))).
+    { intros Hnd. destruct (cinv_copy_with (bump sb1) sl1 tbl phi p flag perm C1') as (sb2 & sl2 & oe & phi2 & Ecp & C2 & Hf2).
+      { rewrite (ks_wf_op sb (bump sb1) Kb'). exact Hwf. } { exact Hnd. }
+      rewrite Ecp. destruct oe as [ce|]; [cbn [fst cret]; now exists phi2|].
+      apply (cinv_open_tail sb2 sl2 tbl phi2 p _ perm C2 (flag_ok_clear_excl flag Hfo)). intros _. exact (Hf2 eq_refl). }
+    destruct (lookup sb1 key) as [fb|] eqn:Hlb.
+    - destruct (GWF_lookup_node _ _ _ _ _ _ (ti_wfb _ _ _ (proj1 C1)) Hlb) as (nb & Hnb). rewrite Hnb. cbn [fi_dir fi_mode finfo_of].
+      destruct (ndir nb) eqn:Hnd.
+      + destruct (cinv_dir_into_layer (bump sb1) sl1 tbl phi p (Z.land (nmode nb) 511) fb nb C1' Hw Hlb Hnb Hnd) as (sl2 & phi2 & Emk & C2).
+        rewrite Emk. apply (cinv_open_tail (bump sb1) sl2 tbl phi2 p _ perm C2 (flag_ok_clear_excl flag Hfo)).
+        intros Hm. exfalso. apply Hm. destruct (clear_excl_bits flag) as (_ & Em & _). rewrite Em. apply Hdirmask.
+        rewrite <- (kind_same_kind sb sb1 key Kb). unfold kind_at. now rewrite Hlb, Hnb, Hnd.
+      + apply Hnotdir. unfold is_dir_at, kind_at. now rewrite Hlb, Hnb, Hnd.
+    - apply Hnotdir. unfold is_dir_at, kind_at. now rewrite Hlb. }
+  destruct cs.
+  - exact Hcopy.
+  - exact Hcopy.
   - (* hit *)
     change (CInv (fst (open_tail sb1 sl1 tbl p flag perm))).
     apply (cinv_open_tail sb1 sl1 tbl phi p flag perm C1 Hfo). intros Hm.
     destruct Hcs as (rl & nl & f & Hl & Hnl & _). fold key in Hl.
     unfold is_file_at, kind_at. fold key. rewrite (same3_lookup _ _ _ Sl), Hl, (same3_node _ _ _ Sl), Hnl.
-    destruct (ndir nl) eqn:Hd; [|reflexivity]. exfalso. apply Hm.
-    assert (Ekb : kind_at sb key = Some true).
-    { apply (layer_kind_base sb sl phi (TreeInv_shape _ _ _ (proj1 C)) key true). unfold kind_at. now rewrite Hl, Hnl, Hd. }
-    rewrite Ekb in Hk. apply andb_true_iff in Hk as [Ha Hc]. apply Z.eqb_eq in Ha. apply negb_true_iff in Hc.
-    rewrite (cache_mask_flag flag Hfo), Ha, (flag_has_zero flag o_create ltac:(discriminate) Hc), (flag_ok_trunc_access flag Hfo Ha). reflexivity.
+    destruct (ndir nl) eqn:Hd; [|reflexivity]. exfalso. apply Hm. apply Hdirmask.
+    apply (layer_kind_base sb sl phi (TreeInv_shape _ _ _ (proj1 C)) key true). unfold kind_at. now rewrite Hl, Hnl, Hd.
   - destruct Hcs.
+Qed.
+
+(* ---------- the creating calls whose name passes through a regular file of the base ---------- *)
+(* the base answers ENOTDIR and does not change; Create / Mkdir / MkdirAll call the base first and stop there;
+   OpenFile(O_CREATE) finds a miss (the layer's tree is part of the base's) and copyFileToLayer's OpenFile on
+   the base is the refused call; (Rename goes through cache_both: it may first copy the source into the layer,
+   which keeps the invariant, then the base refuses) — the layer is never ahead of the base *)
+Theorem cinv_below_create dur now sb sl tbl p :
+  CInv (sb, sl, tbl) -> wf_below sb (Create p) = true -> CInv (fst (cache_step m_step m_step dur now (sb, sl, tbl) (Create p))).
+Proof.
+  intros (phi & C) Hb. cbn [cache_step]. rewrite (below_step_bump sb _ (ti_wfb _ _ _ (proj1 C)) Hb). cbn [fst cret].
+  exists phi. apply (CInvP_view sb sl tbl phi); [apply same3_bump | apply same3_refl | exact C].
+Qed.
+Theorem cinv_below_mkdir dur now sb sl tbl p perm :
+  CInv (sb, sl, tbl) -> wf_below sb (Mkdir p perm) = true -> CInv (fst (cache_step m_step m_step dur now (sb, sl, tbl) (Mkdir p perm))).
+Proof.
+  intros (phi & C) Hb. cbn [cache_step]. rewrite (below_step_bump sb _ (ti_wfb _ _ _ (proj1 C)) Hb). cbn [fst cret].
+  exists phi. apply (CInvP_view sb sl tbl phi); [apply same3_bump | apply same3_refl | exact C].
+Qed.
+Theorem cinv_below_mkdirall dur now sb sl tbl p perm :
+  CInv (sb, sl, tbl) -> wf_below sb (MkdirAll p perm) = true -> CInv (fst (cache_step m_step m_step dur now (sb, sl, tbl) (MkdirAll p perm))).
+Proof.
+  intros (phi & C) Hb. cbn [cache_step]. rewrite (below_step_bump sb _ (ti_wfb _ _ _ (proj1 C)) Hb). cbn [fst cret].
+  exists phi. apply (CInvP_view sb sl tbl phi); [apply same3_bump | apply same3_refl | exact C].
+Qed.
+Theorem cinv_below_openfile dur now sb sl tbl p flag perm :
+  CInv (sb, sl, tbl) -> wf_below sb (OpenFile p flag perm) = true ->
+  CInv (fst (cache_step m_step m_step dur now (sb, sl, tbl) (OpenFile p flag perm))).
+Proof.
+  intros (phi & C) Hb. cbn [cache_step]. pose proof (TreeInv_shape _ _ _ (proj1 C)) as TS.
+  pose proof Hb as Hb0. cbn [wf_below] in Hb0. apply andb_true_iff in Hb0 as [Hb0 Ht]. apply andb_true_iff in Hb0 as [Hb0 _].
+  apply andb_true_iff in Hb0 as [Hw Hfo].
+  destruct (through_file_refused sb _ (ti_wfb _ _ _ (proj1 C)) (canon_normalize p Hw) Ht) as [Hlb _].
+  pose proof (base_none_layer_none sb sl phi TS _ Hlb) as Hll.
+  destruct (status_mem dur now sb sl phi p TS) as (sb1 & sl1 & cs & fi & Est & Sb & Sl & Hcs).
+  rewrite Est. pose proof (CInvP_view sb sl tbl phi sb1 sl1 Sb Sl C) as C1.
+  rewrite copyfiletolayer_clears_append_is_1, cache_openfile_dir_mkdir_fact. cbn [Z.eqb Pos.eqb].
+  assert (Hb1 : wf_below (bump sb1) (OpenFile p flag perm) = true).
+  { rewrite (ks_wf_below sb (bump sb1)); [exact Hb|]. eapply kind_same_trans; [exact (same3_kind_same _ _ Sb) | apply same3_kind_same, same3_bump]. }
+  assert (Hcp : copy_to_layer_with m_step m_step (bump sb1) sl1 p (OpenFile p (Z.land flag (Z.lnot o_append)) perm) = (bump (bump sb1), sl1, Some (EW KENOTDIR))).
+  { unfold copy_to_layer_with. rewrite (flag_ok_no_append flag Hfo), (below_step_bump (bump sb1) _ (WF_bump sb1 (ti_wfb _ _ _ (proj1 C1))) Hb1). reflexivity. }
+  destruct cs; [| destruct Hcs as (rl & nl & f & Hl & _); congruence | destruct Hcs as (rl & nl & f & Hl & _); congruence | destruct Hcs].
+  rewrite (step_stat_full sb1 p (ti_wfb _ _ _ (proj1 C1))). rewrite (same3_lookup sb sb1 (normalize_path p) Sb). rewrite Hlb, Hcp. cbn [fst cret].
+  exists phi. apply (CInvP_view sb1 sl1 tbl phi); [eapply same3_trans; apply same3_bump | apply same3_refl | exact C1].
 Qed.
